@@ -15,12 +15,18 @@ import (
 	"github.com/ysugimoto/falco/v2/token"
 )
 
+// maxIncludeDepth bounds the nesting of include statements: a module that includes itself,
+// directly or through other modules, would otherwise be resolved forever.
+const maxIncludeDepth = 100
+
 type Linter struct {
 	Errors     []*LintError
 	FatalError *FatalError
 	lexers     map[string]*lexer.Lexer
 	ignore     *ignore
 	conf       *config.LinterConfig
+
+	includeDepth int // number of file inclusions being resolved right now
 }
 
 func New(c *config.LinterConfig, opts ...optionFunc) *Linter {
@@ -461,11 +467,26 @@ func (l *Linter) resolveFileInclusion(
 		return statements
 	}
 
+	if l.includeDepth >= maxIncludeDepth {
+		e := &LintError{
+			Severity: ERROR,
+			Token:    include.GetMeta().Token,
+			Message: fmt.Sprintf(
+				"Include of %s is nested more than %d levels deep, the module probably includes itself",
+				include.Module.Value, maxIncludeDepth,
+			),
+		}
+		l.Error(e.Match(INCLUDE_STATEMENT_MODULE_LOAD_FAILED))
+		return statements
+	}
+
 	if isRoot {
 		statements = l.loadVCL(module.Name, module.Data)
 	} else {
 		statements = l.loadSnippetVCL(module.Name, module.Data)
 	}
+	l.includeDepth++
+	defer func() { l.includeDepth-- }()
 	return l.resolveIncludeStatements(statements, ctx, isRoot)
 }
 
